@@ -288,6 +288,32 @@ func runC05(c *core.Ctx, o Options) {
 			ps, _ := an.EnumPaths(ct, 4)
 			c.Check(len(ps) == 1 && len(ps[0].Results) == 1 && ps[0].Results[0] == "time.Now().In(s.timeLocation)", "K5", "Session.CurrentTime", "is time.Now() in the session's location", ct.Pos(), "time.Now().In(s.timeLocation)", "CurrentTime is not time.Now().In(s.timeLocation)")
 		}
+		// the session's location is the configured one or, when none is configured, UTC (SendingTime is a FIX UTCTimestamp:
+		// the layout carries no zone designator, so a reading of the host's wall clock is off by the host's UTC offset)
+		if lf := c.Field("session", "Session", "timeLocation"); c.Anchor("session location", lf != nil, "Session.timeLocation", send.Pos()) {
+			nLoc := 0
+			seenOrigin := map[string]bool{}
+			for _, fn := range an.PkgFuncs(send.Pkg) {
+				an.AllInstrs(fn, func(in ssa.Instruction) {
+					st, ok := in.(*ssa.Store)
+					if !ok {
+						return
+					}
+					fa, ok := st.Addr.(*ssa.FieldAddr)
+					if !ok || an.FieldOf(fa) != lf {
+						return
+					}
+					nLoc++
+					origins, why := locationOrigins(st.Val, 0)
+					for _, o := range origins {
+						seenOrigin[o] = true
+					}
+					c.Check(why == "", "K5", an.NameOf(fn), "the session's location is the configured one or UTC", st.Pos(), "time.LoadLocation(opts.Location) / time.UTC",
+						"Session.timeLocation ← "+an.Render(st.Val)+" ("+why+"): with no location configured the sending time is not the UTC reading of the clock")
+				})
+			}
+			c.Check(nLoc >= 1 && seenOrigin["UTC"] && seenOrigin["LoadLocation"], "K5", "Session.timeLocation", "the session's location comes from time.LoadLocation and from time.UTC", send.Pos(), fmt.Sprintf("%d store(s)", nLoc), fmt.Sprintf("%d stores; origins found: %v (the configured location and the UTC default were confirmed on the pinned tree)", nLoc, seenOrigin))
+		}
 		if tl := c.LookupObj("fix", "TimeLayout"); tl != nil {
 			v := ""
 			if cst, ok := tl.(interface {
@@ -405,6 +431,24 @@ func runC05(c *core.Ctx, o Options) {
 		}
 		c.Check(ok && nOut == 1, "K4", "Storage.GetNextSeqNum", "atomically increments and returns the incremented counter", gn.Pos(), "int(atomic.AddInt64(&counter, 1))", "GetNextSeqNum is not an atomic increment-and-return of the counter")
 	}
+	// K4 (reset): the counters hold the last number used (GetNextSeqNum returns counter+1, a fresh store hands out 1), so a reset
+	// stores 0 in the counter it resets: with any other constant the first message after a reset is not number 1
+	if rs := c.Func("storages/memory", "Storage.ResetSeqNum"); c.Anchor("store reset", rs != nil, "memory.Storage.ResetSeqNum", posOf(rs)) {
+		nSt := 0
+		for _, fn := range append([]*ssa.Function{rs}, pkgHelpersOf(rs)...) {
+			an.AllInstrs(fn, func(in ssa.Instruction) {
+				call, ok := in.(*ssa.Call)
+				if !ok || !an.CalleeIs(&call.Call, "sync/atomic", "StoreInt64") {
+					return
+				}
+				nSt++
+				k, isK := an.ConstInt(call.Call.Args[1])
+				c.Check(isK && k == 0, "K4", "Storage.ResetSeqNum", "a reset counter holds 0 (the next number handed out is 1)", call.Pos(), "atomic.StoreInt64(&counter, 0)",
+					"ResetSeqNum stores "+an.Render(call.Call.Args[1])+": GetNextSeqNum returns the counter plus one, so the first message after a reset does not carry number 1")
+			})
+		}
+		c.Check(nSt >= 1, "K4", "Storage.ResetSeqNum", "resets through atomic stores", rs.Pos(), fmt.Sprint(nSt), "no atomic store of the counter found in ResetSeqNum")
+	}
 	// ---- K5 premise: the number stamped is the number serialized — Int.ToBytes is the decimal text of the value last Set
 	checkIntCodec(c, "K5")
 	checkCodecs(c, "K5", map[string]bool{"set": true, "type:Int": true})
@@ -412,8 +456,14 @@ func runC05(c *core.Ctx, o Options) {
 	checkImageFresh(c, "K9")
 	// ---- K10 a stopped session takes no further number: the timer goroutines test the session context after every wake-up
 	checkTimerRoutines(c, s, "K10")
+	// K10 (premise): the session context those goroutines test ends with the connection — the handler (whose context the session
+	// derives its own from) is created on the per-connection context that the connection's tear-down cancels; a session left alive
+	// by a dropped connection would keep taking numbers from a counter store the next session continues from
+	checkTeardownReach(c, "K10")
 	// K11: what the session queues in order reaches the socket in order only if one goroutine per connection drains the queue
 	checkSinglePumps(c, "K11", libFuncs(c))
+	// K11 also: what the writer takes off the queue is written once — Conn.Write calls net.Conn.Write exactly once, outside any loop
+	checkConnWrite(c, "K11")
 	// ---- K6 acceptor swap: on every accepting-side path of the Logon handler the installed settings carry the peer's
 	// SenderCompID as TargetCompID and vice versa (symbolic evaluation of the settings object, see settings.go)
 	if lf := s.one(true, "Logon"); lf != nil {
@@ -523,7 +573,9 @@ func runC05(c *core.Ctx, o Options) {
 		c.Check(ent.Holds(hmu, "h", an.ModeW), "K8", "DefaultHandler.send", "every caller of send holds DefaultHandler.mu", hsend.Pos(), "entry lockset "+ent.String(), "send is reachable without DefaultHandler.mu (entry lockset "+ent.String()+")")
 	}
 	c.Explanation += " K11 (= C04.F4): per connection exactly one goroutine of each serve function writes the socket, one reads and one forwards; two writers draining the same queue reorder the stream."
-	c.RuleMin = map[string]int{"K1": 6, "K2": 4, "K3": 8, "K4": 3, "K5": 8, "K6": 1, "K7": 3, "K8": 3, "K9": 2, "K10": 4, "K11": 5}
+	c.Explanation += " K4 also: ResetSeqNum stores the constant 0 in the counter it resets (GetNextSeqNum returns counter+1). K5 also: Session.timeLocation is only assigned time.LoadLocation(configured) or time.UTC, followed through results of package functions. K10 premise (= C13.Z5): the handler, and with it the session, lives on the per-connection context that the connection's tear-down cancels."
+	c.Explanation += " K11 also: Conn.Write calls net.Conn.Write exactly once, outside any loop."
+	c.RuleMin = map[string]int{"K1": 6, "K2": 4, "K3": 8, "K4": 6, "K5": 8, "K6": 1, "K7": 3, "K8": 3, "K9": 2, "K10": 8, "K11": 6}
 	c.MinObl = 35
 }
 
@@ -552,4 +604,73 @@ func checkSendChainNoSpawn(c *core.Ctx, s *sess, rule string) {
 		}
 		c.Check(!hasGo(fn), rule, an.NameOf(fn), "no goroutine is spawned on the send chain", fn.Pos(), "no go statement", "a go statement on the path between the sender and the outbound queue lets a later message overtake an earlier one")
 	}
+}
+
+// pkgHelpersOf: unexported functions of fn's package that fn calls directly (one level).
+func pkgHelpersOf(fn *ssa.Function) []*ssa.Function {
+	var out []*ssa.Function
+	seen := map[*ssa.Function]bool{}
+	an.AllInstrs(fn, func(in ssa.Instruction) {
+		if cc := an.CallOf(in); cc != nil {
+			if cal := an.StaticCallee(cc); cal != nil && cal.Pkg == fn.Pkg && cal.Blocks != nil && !cal.Object().Exported() && !seen[cal] {
+				seen[cal] = true
+				out = append(out, cal)
+			}
+		}
+	})
+	return out
+}
+
+// locationOrigins: where a *time.Location value comes from — "UTC" (the package variable), "LoadLocation" (result 0 of
+// time.LoadLocation), "nil" — followed through phis and through the results of functions of the same package. The second result
+// names the first origin that is none of these.
+func locationOrigins(v ssa.Value, depth int) ([]string, string) {
+	if depth > 6 {
+		return nil, "origin not followed: " + an.Render(v)
+	}
+	if an.IsNilConst(v) {
+		return []string{"nil"}, ""
+	}
+	switch x := v.(type) {
+	case *ssa.UnOp:
+		if g, isG := x.X.(*ssa.Global); isG && g.Pkg != nil && g.Pkg.Pkg.Path() == "time" && g.Name() == "UTC" {
+			return []string{"UTC"}, ""
+		}
+	case *ssa.Phi:
+		var out []string
+		for _, e := range x.Edges {
+			o, why := locationOrigins(e, depth+1)
+			if why != "" {
+				return nil, why
+			}
+			out = append(out, o...)
+		}
+		return out, ""
+	case *ssa.Extract:
+		call, isC := x.Tuple.(*ssa.Call)
+		if !isC || x.Index != 0 {
+			break
+		}
+		if an.CalleeIs(&call.Call, "time", "LoadLocation") {
+			return []string{"LoadLocation"}, ""
+		}
+		cal := an.StaticCallee(&call.Call)
+		if cal == nil || cal.Pkg != call.Parent().Pkg || cal.Blocks == nil {
+			break
+		}
+		var out []string
+		for _, b := range cal.Blocks {
+			ret, isR := b.Instrs[len(b.Instrs)-1].(*ssa.Return)
+			if !isR || len(ret.Results) == 0 {
+				continue
+			}
+			o, why := locationOrigins(ret.Results[0], depth+1)
+			if why != "" {
+				return nil, why
+			}
+			out = append(out, o...)
+		}
+		return out, ""
+	}
+	return nil, "neither time.UTC nor the result of time.LoadLocation: " + an.Render(v)
 }
